@@ -100,6 +100,12 @@ class AsyncBrkWorld:
                 return ("val", task.ops)
             if r == "timeout":
                 raise TimeoutError("upstream timeout")
+            if r == "xc:T":
+                # a fallback that fails inside `except CircuitOpenError:` (implicit chaining)
+                try:
+                    raise CircuitOpenError("another component's breaker is open")
+                except CircuitOpenError:
+                    raise OpError(r)
             raise OpError(r)
         return op
 
@@ -318,6 +324,8 @@ def bfs_async(cfg, depth, max_out, kinds, seed=0):
         for i in range(n_out):
             events += [("resume", i, "ok"), ("resume", i, "x:T"), ("resume", i, "timeout"),
                        ("cancel", i)]
+            if cfg.get("chained"):
+                events.append(("resume", i, "xc:T"))
         for ev in events:
             h2 = hist + (ev,)
             w = replay(cfg, h2)
